@@ -28,6 +28,7 @@ for d in "$HERE"/selftest/*.diff; do
   case "$n" in *"$PAT"*) ;; *) continue;; esac
   case "$n" in
     S*) p=$(echo "$n" | sed 's/^S[0-9]*-c\([0-9]*\)-.*/C\1/'); run_one "$n" "$d" "$p" 1;;
+    N10*) run_one "$n" "$d" C16 0; run_one "$n" "$d" C05 0; run_one "$n" "$d" C18 0; run_one "$n" "$d" C06 0;;
     N*) run_one "$n" "$d" C18 0; run_one "$n" "$d" C06 0;;
   esac
 done
